@@ -5,7 +5,7 @@ import gen_xml
 AXES_FWD = ['child', 'descendant', 'descendant-or-self', 'following', 'following-sibling', 'attribute', 'self']
 AXES_REV = ['parent', 'ancestor', 'ancestor-or-self', 'preceding', 'preceding-sibling']
 NUM_LITS = ['0', '1', '2', '3', '10', '0.5', '1.5', '2.5', '-1', '100', '.5', '5.', '007', '1000000', '9007199254740993',
-            '0.1', '0.000001', '1e3', '12345678901234567890', '4', '7']
+            '0.1', '0.000001', '12345678901234567890', '4', '7']
 STR_LITS = ["''", "'a'", "'b'", "'ab'", "'abc'", "' 12 '", "'1'", "'2'", "'10'", "'x y'", "'NaN'", "'-1'", '"q\'s"', "'0'", "'true'",
             "'3.5'", "'alpha'", "'i1'", "'i2 i3'", "'1e3'", "'A'", "'  a  b '", "'-0'", "'é'"]
 
@@ -315,6 +315,67 @@ class Gen(object):
             self.f('ext-bool')
             return 'set:has-same-node(%s, %s)' % (self.e_ns(depth + 1), self.e_ns(depth + 1))
         return 'true()'
+
+
+def gen_pattern(g, alts=None, allow_id=True):
+    """XSLT match pattern over the Pattern grammar using the vocabulary of Gen g"""
+    r = g.r
+
+    def pstep(first):
+        k = r.random()
+        if k < 0.6:
+            axis = ''
+            nt = g.nametest()
+        elif k < 0.75:
+            axis = r.choice(['@', 'attribute::'])
+            nt = g.nametest(True)
+        else:
+            axis = 'child::'
+            nt = g.nametest()
+        preds = ''
+        for _ in range(r.choice([0, 0, 0, 1, 1, 2])):
+            preds += '[' + ppred() + ']'
+        return axis + nt + preds
+
+    def ppred():
+        k = r.random()
+        g.f('pattern-pred')
+        if k < 0.3:
+            return r.choice(['1', '2', '3', 'last()', 'last()-1', 'position()=1', 'position()>1', 'position()=last()', 'position() mod 2 = 1', 'position() < last()', '0'])
+        if k < 0.5:
+            return '@' + g.nametest(True)
+        if k < 0.6:
+            return '@%s=%s' % (r.choice(g.attrs), r.choice(STR_LITS[:10] + NUM_LITS[:6]))
+        if k < 0.75:
+            return g.relpath(2, short=True)
+        if k < 0.85:
+            return '.=%s' % r.choice(STR_LITS[:10])
+        if k < 0.93:
+            return 'count(%s) %s %s' % (r.choice(['*', 'node()', '@*', '../*', 'preceding-sibling::*', 'following-sibling::*']), r.choice(['=', '>', '<']), r.choice(['0', '1', '2']))
+        return g.e_bool(3)
+
+    def alt():
+        k = r.random()
+        if k < 0.06:
+            return '/'
+        lead = ''
+        if allow_id and k < 0.14:
+            lead = "id(%s)" % r.choice(["'i1'", "'i2 i3'", "'i1 i4 nope'"])
+            if r.random() < 0.3:
+                return lead
+            lead += r.choice(['/', '//'])
+        elif k < 0.3:
+            lead = '/'
+        elif k < 0.42:
+            lead = '//'
+        n = r.choice([1, 1, 1, 2, 2, 3, 4])
+        parts = [pstep(True)]
+        for _ in range(n - 1):
+            parts.append(r.choice(['/', '/', '//']))
+            parts.append(pstep(False))
+        return lead + ''.join(parts)
+    n = alts or r.choice([1, 1, 1, 2, 3])
+    return ' | '.join(alt() for _ in range(n))
 
 
 def mutate_invalid(r, s):
